@@ -233,6 +233,9 @@ pub fn cases(prop: &str, tier: Tier, seed: u64) -> Vec<CaseDesc> {
         }
         "C08" => {
             out.extend(with_scenario(disk_corpus(false), "rt:emit,emit2,fix,shift,reedit"));
+            // outputs of edited modules are walrus's own output as well: fixpoint after adding named imports
+            out.extend(with_scenario(g("names", 400, 15_000), "rt:addimp"));
+            out.extend(with_scenario(g("full", 300, 10_000), "rt:addimp"));
             for (p, nq, nt) in [("full", 1500, 80_000), ("customs", 800, 30_000), ("names", 800, 30_000), ("gcgraph", 500, 20_000)] {
                 let specs = g(p, nq, nt);
                 for (i, s) in specs.into_iter().enumerate() {
@@ -270,6 +273,11 @@ pub fn cases(prop: &str, tier: Tier, seed: u64) -> Vec<CaseDesc> {
             for (p, nq, nt) in [("full", 2500, 100_000), ("gcgraph", 1500, 60_000), ("mvp", 500, 20_000), ("customs", 500, 20_000)] {
                 out.extend(with_scenario(g(p, nq, nt), "rt:emit"));
             }
+            // "unless a pass was asked to": an edit that adds one import of each kind renumbers every index space
+            // and must retarget nothing
+            out.extend(with_scenario(crate::census::attr_specs(), "rt:addimp"));
+            out.extend(with_scenario(g("full", 800, 30_000), "rt:addimp"));
+            out.extend(with_scenario(g("stable", 300, 10_000), "rt:addimp"));
         }
         "C06" | "C07" => {
             // GC-edge census: module-level edges (hand-written), every instruction operand edge as the only
